@@ -28,7 +28,7 @@ def gen_case(rng, tier, idx):
     # mostly moderate discounts; a few per cent close to 1, where planning on the empirical model needs thousands of sweeps
     spec = gen_mdp_spec(rng, proper=True, uniform_actions=True, discounts=(0.99, 0.995, 0.999) if rng.random() < 0.04 else (0.5, 0.8, 0.9, 0.95))
     cfg = dict(m=rng.randint(1, 5), tol=rng.choice((1e-3, 1e-5)), episodes=rng.randint(1, 6), seed=rng.choice((0, 1, 5, 99)),
-               reuse=rng.randrange(1000) if rng.random() < 0.15 else None)
+               reuse=rng.randrange(1000) if rng.random() < 0.15 else None, alias=rng.choice(('fresh', 'fresh', 'cached', 'shared')))
     plain = idx % 4 == 0
     sched = gen_sched(rng, ('P',) if plain else ('P', 'U', 'R', 'R', 'X'))
     if plain:
@@ -51,7 +51,7 @@ def execute(case, script=None):
 
 
 def _execute(rm, view, cfg, ctx, sched):
-    mdp = make_mdp(view, ctx)
+    mdp = make_mdp(view, ctx, alias=cfg.get('alias', 'fresh'))
     g = view.gamma
     if g >= 0.99:
         ctx.probe('discount_close_to_one')
@@ -183,7 +183,7 @@ def _execute(rm, view, cfg, ctx, sched):
             if sib is not None:
                 # fault F5: the same learner object is first trained on a sibling problem (same keys, one more absorbing state)
                 sview = MDPView(sib)
-                smdp_ = make_mdp(sview, ctx)
+                smdp_ = make_mdp(sview, ctx, alias=cfg.get('alias', 'fresh'))
                 import numpy as _np
                 if float(_np.max(smdp_.reward_matrix)) == rmax:      # the learner asserts rmax == max reward of the model it is given
                     sched.fire('F5_object_reuse')
